@@ -39,19 +39,16 @@ theorem tape_eq_iff (t u : Tape) (ht : t.Canon) (hu : u.Canon) (q : Nat) :
     rw [h1, h2, h3]
 
 /-- **Observers.** `marks` is the number of non-blank cells (no hypothesis needed). -/
-theorem marks_truth (t : Tape) (q : Nat) : t.marks = (t.toCfg q).marks := by
-  simp only [Tape.marks, Cfg.marks, Tape.toCfg, Span.marks_eq]
-  by_cases h : t.scan = 0 <;> simp [h] <;> omega
+theorem marks_truth (t : Tape) (q : Nat) : t.marks = (t.toCfg q).marks :=
+  t.marks_toCfg q
 
-theorem blank_truth (t : Tape) (h : t.Canon) (q : Nat) : t.blank = true ↔ (t.toCfg q).Blank := by
-  simp only [Tape.blank, Cfg.Blank, Tape.toCfg, h.1.allZero_iff, h.2.allZero_iff,
-    Bool.and_eq_true, beq_iff_eq, List.isEmpty_iff, and_assoc]
+theorem blank_truth (t : Tape) (h : t.Canon) (q : Nat) : t.blank = true ↔ (t.toCfg q).Blank :=
+  Tape.blank_iff h q
 
 theorem atEdge_truth (t : Tape) (h : t.Canon) (d : Bool) :
     t.atEdge d = true ↔
-      t.scan = 0 ∧ AllZero (if d then Span.unroll t.rspan else Span.unroll t.lspan) := by
-  cases d <;>
-    simp [Tape.atEdge, h.1.allZero_iff, h.2.allZero_iff]
+      t.scan = 0 ∧ AllZero (if d then Span.unroll t.rspan else Span.unroll t.lspan) :=
+  Tape.atEdge_iff h d
 
 /-- block counts, block number, span lengths and signature are what one reads off the cells -/
 theorem counts_truth (t : Tape) (h : t.Canon) :
